@@ -36,10 +36,17 @@ func (g *GenesisState) Validate() error {
 		return core.ErrNilPointer.Wrap("executor genesis state")
 	}
 
+	// NOTE: the state is initialized through the pausing setter, which rejects
+	// an action that is already paused, so repeated entries cannot be initialized.
+	visitedIDs := make(map[core.ActionID]struct{})
 	for _, id := range g.PausedActionIds {
 		if err := id.Validate(); err != nil {
 			return err
 		}
+		if _, found := visitedIDs[id]; found {
+			return core.ErrValidation.Wrapf("repeated paused action ID %s", id)
+		}
+		visitedIDs[id] = struct{}{}
 	}
 
 	return nil
